@@ -267,6 +267,48 @@ Theorem C19_plan_sqlite_driver : norm_keeps_cols sqlite_driver /\ attr_no_cols s
 Proof. split; [exact sqlite_norm_keeps_cols | exact sqlite_attr_no_cols]. Qed.
 Print Assumptions C19_plan_sqlite_driver.
 
+(** the same at every level -- column, index, foreign key, check -- for NAME-PRESERVING drivers
+    (Normalize keeps the children of both tables; TableAttrDiff names only children of the two
+    tables): every change of the diff of the two filtered schemas targets a table / child of the
+    original state that no chain selects by name.  [plain_driver] (the SQLite callbacks with an
+    identity Normalize) is such a driver; the SQLite driver itself is not (it renames
+    sqlite_autoindex_* indexes and rewrites foreign-key symbols), which is why the SQLite
+    statement above stops at columns. *)
+Theorem C19_plan_ignores_excluded :
+  forall (D : DiffDriver) (skip : tag -> bool) (link1 link2 : bool * bool)
+         (patterns : list bytes) (G : list (list bytes)) (from to from' to' : schema) (cs : list schange),
+    norm_keeps_children D -> attr_targets D ->
+    split patterns = EOk G -> chains_ok G ->
+    ExcludeRealm link1 [from] patterns = EOk [from'] ->
+    ExcludeRealm link2 [to] patterns = EOk [to'] ->
+    SchemaDiff D skip from' to' = Some cs ->
+    forall c, In c cs -> unexcluded_target2 G from to c.
+Proof.
+  intros D skip link1 link2 patterns G from to from' to' cs Hn Ha Hs HG H1 H2 Hd c Hc.
+  rewrite (ExcludeRealm_ref link1 [from] patterns G Hs HG) in H1.
+  rewrite (ExcludeRealm_ref link2 [to] patterns G Hs HG) in H2.
+  unfold ref_realm in H1, H2. simpl in H1, H2.
+  destruct (schema_hit G from); [discriminate|]. destruct (schema_hit G to); [discriminate|].
+  simpl in H1, H2. inversion H1; subst. inversion H2; subst.
+  exact (plan_ignores_excluded2 D skip link1 link2 G from to cs Hn Ha Hd c Hc).
+Qed.
+Print Assumptions C19_plan_ignores_excluded.
+
+Theorem C19_plan_plain_driver : norm_keeps_children plain_driver /\ attr_targets plain_driver.
+Proof. exact plain_driver_ok. Qed.
+Print Assumptions C19_plan_plain_driver.
+
+(** [chains_ok] follows from well-formedness of every glob (C19_match_spec, first half) *)
+Theorem C19_chains_ok_wf :
+  forall G : list (list bytes),
+    Forall (fun g => g <> [] /\ List.length g <= 3 /\ Forall (fun v => WellFormed (glob_of v)) g) G -> chains_ok G.
+Proof.
+  intros G H. unfold chains_ok. eapply Forall_impl; [|exact H]. intros g (H1 & H2 & H3).
+  split; [exact H1|]. split; [exact H2|]. eapply Forall_impl; [|exact H3].
+  intros v Hw n. exact (Match_total (glob_of v) n Hw).
+Qed.
+Print Assumptions C19_chains_ok_wf.
+
 (** non-vacuity: column b of t is excluded in both states, column c is added: the plan adds c
     and says nothing about b, which only the current state has *)
 Definition ex_from' : schema :=
